@@ -206,6 +206,10 @@ class C04(Spec):
                     report(TAGKEY[t], what, i)
                 u["seen_tags"] = u.get("seen_tags", set()) | best[0].tags
                 u["cands"] = best + [c for c in u["cands"] if len(c.tags) > mt]
+                if "D14" in best[0].tags:
+                    # a union restarted at a reduced lg_k (known defect D14): its later behaviour (lvalue/rvalue adoption of the stale
+                    # gadget, self-promotion at the wrong lg_k ...) is not specified any further
+                    u["cands"] = None
 
         for i, l in enumerate(hist):
             w = l.split()
@@ -216,6 +220,8 @@ class C04(Spec):
             c = None
             if op == "upd":
                 c = cps[ci]; ci += 1
+            if o.strip() == "bad-op":
+                continue
             if o.strip() == "throw":
                 ok_throw = (op in ("new", "unew") and not (4 <= int(w[2]) <= 21))
                 if not ok_throw:
@@ -250,7 +256,7 @@ class C04(Spec):
                 u = un[int(w[1])]
                 if u["cands"] is not None:
                     nc = [Cand(u["lgmax"], tags=x.tags) for x in u["cands"]]
-                    nc += [Cand(x.lgk, tags=x.tags | {"D14"}) for x in u["cands"] if x.lgk != u["lgmax"]]
+                    nc += [Cand(x.lgk, selfhll=sh, tags=x.tags | {"D14"}) for x in u["cands"] if x.lgk != u["lgmax"] for sh in (False, True)]
                     u["cands"] = dedup(nc)
             elif op == "uest":
                 u = un[int(w[1])]
@@ -278,6 +284,8 @@ class C04(Spec):
                                 if x.tags and not x.selfhll and not x.hsrc:
                                     nc.append(Cand(x.lgk, x.coupons | xitems, x.hsrc, x.stale, True, x.tags))
                                 adopt = rv and F["tt"] == 8 and xl == u["lgmax"]
+                                if adopt and not x.has_content():
+                                    nc.append(Cand(u["lgmax"], xitems, (), False, False, x.tags))
                                 if x.stale and x.has_content() and xl == x.lgk and not adopt:
                                     nc.append(Cand(xl, xitems, (), False, False, x.tags | {"D1"}))
                             u["cands"] = dedup(nc)
@@ -288,17 +296,24 @@ class C04(Spec):
                             else:
                                 nc = []
                                 for x in u["cands"]:
-                                    if "D14" in x.tags and not x.hsrc:
-                                        # gadget restarted at a reduced lg_k: still LIST/SET -> lg_max_k applies again; promoted by itself -> reduced
+                                    if not x.hsrc:
+                                        # gadget still LIST/SET: copy_or_downsample(src, lg_max_k) + mergeList; or in HLL mode at its own
+                                        # lg_k (promoted by itself, or re-created full-size by reset). The two coincide unless a defect
+                                        # left the gadget at lg_k != lg_max_k; in such tagged candidates every sub-case is allowed.
+                                        opts = set()
                                         if not x.selfhll:
-                                            nl = min(xl, u["lgmax"])
-                                            nc.append(Cand(nl, x.coupons, x.hsrc + ((xl, regs),), x.stale or xl != nl, False, x.tags))
+                                            opts.add((min(xl, u["lgmax"]), xl > u["lgmax"], False))
                                         if x.selfhll or x.coupons:
-                                            nl = min(xl, x.lgk)
-                                            nc.append(Cand(nl, x.coupons, x.hsrc + ((xl, regs),), x.stale or xl != x.lgk, True, x.tags))
+                                            opts.add((min(xl, x.lgk), x.stale or xl < x.lgk, True))
+                                        if x.tags:
+                                            opts.add((min(xl, x.lgk), True, True))
+                                            opts.add((min(xl, u["lgmax"]), xl > u["lgmax"], False))
+                                            for (l_, st_, sh_) in list(opts):
+                                                opts.add((l_, True, sh_))
+                                        for (l_, st_, sh_) in sorted(opts):
+                                            nc.append(Cand(l_, x.coupons, ((xl, regs),), st_, sh_, x.tags))
                                     else:
-                                        nl = min(xl, x.lgk)
-                                        nc.append(Cand(nl, x.coupons, x.hsrc + ((xl, regs),), x.stale or xl != x.lgk, x.selfhll, x.tags))
+                                        nc.append(Cand(min(xl, x.lgk), x.coupons, x.hsrc + ((xl, regs),), x.stale or xl < x.lgk, x.selfhll, x.tags))
                                     adopt = rv and F["tt"] == 8 and xl <= u["lgmax"]
                                     if x.stale and x.has_content() and not adopt:
                                         nl = min(xl, u["lgmax"])
@@ -339,8 +354,8 @@ class C04(Spec):
                     by_content[content] = F["comp"]
                 elif not close(prev, F["comp"]):
                     report("composite-estimate-differs-for-same-content", "%s vs %s" % (prev, F["comp"]), i)
-                if F["mode"] == 2 and F["regs"] is not None and (F["curmin8"], F["nacm8"]) != (0, sum(1 for x in F["regs"] if x == 0)) and F["tt"] != 8:
-                    report("result-zero-count-wrong", o[:60], i)
+                if F["mode"] == 2 and F["regs"] is not None and F["curmin8"] == 0 and F["nacm8"] != sum(1 for x in F["regs"] if x == 0):
+                    report("result-zero-count-wrong", "numAtCurMin=%d zeros=%d" % (F["nacm8"], sum(1 for x in F["regs"] if x == 0)), i)
                 continue
             else:
                 continue
